@@ -32,6 +32,14 @@ CHECKS = {
    technique="deterministic simulation: the device is a second party taking turns with the program - a seeded script of in-segment memory reads/writes per device call, executed in lock-step by the reference machine; the real InMemoryScreen/PcIO/KeyboardIO stack driven by generated command-stream programs and compared with a reference decoder",
    text="seeded exploration of device schedules (which call touches which in-segment address with which value) x engines x storage modes; valid and malformed screen command streams at w in {16,32,64}",
    note="trusted: reference machine and reference screen decoder; device writes outside segments are out of scope by the statement; pygame is not installed, PcIO is assembled from its real headless components"),
+ "C10": dict(engine="storagesim", category="fault_enumeration", design="5.4", timeout=(300, 2400),
+   technique="deterministic simulation with fault injection on a simulated disk: the real writer's byte stream is torn at every byte (crash / full disk / kill), blocks are lost, every header/table field is corrupted from a value table, payload bits are flipped; the real reader opens every variant",
+   text="crash points are enumerated completely per file (every strict prefix up to 4 KiB), every single-field corruption from a value table, seeded block loss and payload damage; files (writer call sequences) are sampled",
+   note="trusted: the independent struct-level parser in checks/c10.py decides the named inconsistencies; a torn write leaves a prefix; undetectable (mutually consistent) damage is judged for totality only"),
+ "C14": dict(engine="storagesim", category="fault_enumeration", design="5.6", timeout=(300, 2400),
+   technique="deterministic simulation with fault injection on a simulated disk: every file operation of a recorded assemble() call fails in turn (OSError, short write), the process dies after every byte of the .fjm, an interrupt becomes pending at seeded instructions of the create-binary stage",
+   text="ONLY the crash-consistency clause of C14 is claimed (a failed assembly never leaves behind an output file that loads); fault plans are enumerated per sampled call. The clauses 'specific exception for every source text' and 'never hangs' quantify over inputs only and are not claimed",
+   note="trusted: 'loads' = Reader + assert_runnable; every returned write is durable (most favourable disk); exception types under environment faults are not judged"),
  "C11": dict(engine="enginesim", category="exploration", design="5.3", timeout=(400, 2700),
    technique="deterministic simulation with fault injection on an ASan+UBSan build of the working-tree _fjcore.c: seeded knob swarm, adversarial byte-wise images, Memory-API operation sequences, device accesses at any 64-bit address, failing callbacks, and the k-th allocation failing (alloc shim), every death attributed to one case by re-running it alone",
    text="seeded exploration; the sanitizers are the invariant monitor (out-of-bounds, use-after-free, UB such as shifts and signed overflow), refcounts of the callbacks are compared before/after, and allocation-failure indices are enumerated per sampled run",
